@@ -149,6 +149,7 @@ fn check<C: Pv>(c: &Case) -> Report {
         recompose: c.prog.recompose_npo,
         debug_lookups: false,
         poseidon2: None,
+        poseidon1: None,
     };
     let setup = match C::setup(&circuit, &pk, &npo) {
         Ok(s) => s,
